@@ -2,8 +2,11 @@
 "DoesNotTerminate"), not in a hanging check.
 
 The budget is counted in CPU time of this process (ITIMER_VIRTUAL): a busy loop burns it, a machine that is merely
-overloaded does not, so the unchanged library cannot run out of budget because the host is slow.  A much longer
-wall-clock alarm stands behind it for calls that block without computing.  Main thread only; budgets do not nest."""
+overloaded does not, so the unchanged library cannot run out of budget because the host is slow.  The cyclic garbage
+collector is switched off for the duration of the call: a full collection of a harness heap of several gigabytes takes
+seconds of CPU time and would be billed to whatever call happens to trigger it.  A much longer wall-clock alarm stands
+behind the CPU budget for calls that block without computing.  Main thread only; budgets do not nest."""
+import gc
 import signal
 
 
@@ -18,6 +21,8 @@ def call(fn, *args, seconds=10, wall=None, **kw):
     def on_alarm(signum, frame):
         raise Budget()
 
+    collecting = gc.isenabled()
+    gc.disable()
     old_v = signal.signal(signal.SIGVTALRM, on_alarm)
     old_a = signal.signal(signal.SIGALRM, on_alarm)
     signal.setitimer(signal.ITIMER_VIRTUAL, seconds)
@@ -29,3 +34,5 @@ def call(fn, *args, seconds=10, wall=None, **kw):
         signal.setitimer(signal.ITIMER_REAL, 0)
         signal.signal(signal.SIGVTALRM, old_v)
         signal.signal(signal.SIGALRM, old_a)
+        if collecting:
+            gc.enable()
